@@ -73,6 +73,35 @@ claim("C13", "exploration",
       "transitions and must end in signer mode or answer -905.",
       TRUST_STACK, "DESIGN.md 4 C13")
 
+claim("C09", "exploration",
+      "configuration enumeration of simulated device states through the real initialize_device "
+      "/ TCPServer.run, APDU-log monitor vs a reference decision function",
+      "Enumerates device configurations (quick: seeded sample + full version grids; thorough: "
+      "full product of the reduced grid) on all three platforms, counts PIN/unlock APDUs on the "
+      "transport log and compares 'unlock sent' and 'served' with a 20-line reference written "
+      "from the property statement; a sample runs through the real TCPServer on a socket.",
+      TRUST_STACK, "DESIGN.md 4 C09")
+
+claim("C10", "fault_enumeration",
+      "history monitor over device + file events on one logical clock; fault injection at every "
+      "change-phase exchange, file-system failures, real process crashes in child processes; "
+      "scripted-entropy and contract checks on generate_pin",
+      "Every change-phase exchange index x outcome, every file operation failure and every "
+      "crash boundary is enumerated for Ledger and SGX and followed by restarts; invariants "
+      "I1-I5 of DESIGN.md are checked on the recorded history. The ack-to-durable-file window "
+      "is a recorded known finding (7 mechanisms); any other loss of the PIN is a violation.",
+      TRUST_STACK + " Crash points are event boundaries visible to the harness.",
+      "DESIGN.md 4 C10")
+
+claim("C11", "fault_enumeration",
+      "link-fault injection at every exchange index + transport-event order monitor on the "
+      "follow-up request (close, enumerate/open, bring-up, command)",
+      "For every command shape and exchange index a write error, read error or time-out is "
+      "injected over the fake HID; the faulted reply and the ordered transport events of the "
+      "follow-up request(s) are checked, with the reconnection failing 0..3 times, the device "
+      "found rebooted, and a second fault during the repair.",
+      TRUST_STACK, "DESIGN.md 4 C11")
+
 
 def main():
     props = [json.loads(l) for l in open(os.path.join(HERE, "properties.jsonl"))]
